@@ -44,7 +44,7 @@ struct Params {
 	// stdio faults (disk full / I/O error) on FILE streams whose path contains stdio_track: the i-th eligible stdio call
 	// (fopen; fwrite of n>0 bytes; fflush, fseek, fseeko while written data may still be buffered: in call order) fails when i is listed in stdio_fail_at; with stdio_sticky every
 	// later eligible call fails too (the disk stays full)
-	std::string stdio_track; std::vector<uint32_t> stdio_fail_at; bool stdio_sticky = false;
+	std::string stdio_track; std::vector<uint32_t> stdio_fail_at; bool stdio_sticky = false; size_t fread_short_bytes = (size_t)-1;   /* fread on a tracked stream delivers only this many bytes (then fails) when more were asked for */
 	std::vector<uint32_t> accept_fail_at;    // the i-th accept() that finds a pending connection fails with EMFILE (descriptor exhaustion, transient): the connection stays in the backlog
 	std::vector<uint32_t> urandom_fail_at;   // the i-th open("/dev/urandom") fails with EMFILE (descriptor exhaustion) for the listed i
 	unsigned p_connect_inprogress = 0;      // per 1024: a non-blocking connect() answers EINPROGRESS; the connection is completed (or refused) later by complete_connect(), called by an environment actor
@@ -56,7 +56,7 @@ struct Params {
 // ---------------------------------------------------------------- statistics: what actually fired
 struct Stats {
 	uint64_t steps=0, switches=0, clock_jumps=0;
-	uint64_t short_reads=0, short_writes=0, eagain_r=0, eagain_w=0, eintr=0, spurious=0, resets=0, epipe=0, partitions=0, partition_refused=0, getpeername_enotconn=0, urandom_open_failed=0, accept_emfile=0, file_write_failed=0, accept_spurious=0, connect_inprogress=0;
+	uint64_t short_reads=0, short_writes=0, eagain_r=0, eagain_w=0, eintr=0, spurious=0, resets=0, epipe=0, partitions=0, partition_refused=0, getpeername_enotconn=0, urandom_open_failed=0, accept_emfile=0, file_write_failed=0, accept_spurious=0, connect_inprogress=0, fread_short=0;
 	uint64_t file_short=0, file_eintr=0, cv_spurious=0, stdio_ops=0, stdio_fail=0;
 	uint64_t threads_created=0, mutex_contended=0, rw_contended=0, cv_waits=0;
 	uint64_t accepts=0, connects=0, bytes_rx=0, bytes_tx=0;
